@@ -20,6 +20,7 @@ import (
 	"time"
 
 	"go.nanomsg.org/mangos/v3"
+	"go.nanomsg.org/mangos/v3/internal/verifyield"
 	"go.nanomsg.org/mangos/v3/transport"
 )
 
@@ -65,10 +66,12 @@ func (s *socket) addPipe(tp transport.Pipe, d *dialer, l *listener) {
 	// Add to the list of pipes for the socket; this also reserves an ID
 	// for it.
 	s.pipes.Add(p)
+	verifyield.Point("core.addPipe.listed")
 
 	if ph != nil {
 		ph(mangos.PipeEventAttaching, p)
 	}
+	verifyield.Point("core.addPipe.afterAttaching")
 
 	p.lock.Lock()
 	if p.closing {
@@ -83,6 +86,7 @@ func (s *socket) addPipe(tp transport.Pipe, d *dialer, l *listener) {
 	}
 	p.added = true
 	p.lock.Unlock()
+	verifyield.Point("core.addPipe.afterAdd")
 
 	if p.d != nil {
 		// This call resets the redial time in the dialer.  Its
@@ -103,6 +107,7 @@ func (s *socket) remPipe(p *pipe) {
 	ph := s.pipehook
 	s.Unlock()
 	s.pipes.Remove(p)
+	verifyield.Point("core.remPipe.beforeDetached")
 	go func() {
 		if ph != nil {
 			ph(mangos.PipeEventDetached, p)
@@ -148,6 +153,7 @@ func (s *socket) Close() error {
 	}
 
 	err := s.proto.Close()
+	verifyield.Point("core.Close.afterProtoClose")
 	s.pipes.CloseAll()
 	return err
 }
